@@ -263,6 +263,9 @@ class Rig:
         self.generation = 0
         self.killed = 0
         self.proxies = {}
+        # the client-side watchdog of every wait on the real code: Pyro waits for a reply for ever by default
+        # (COMMTIMEOUT 0); a server that neither answers nor closes the connection must become an observation
+        self.timeout = float(os.environ.get("C07_TIMEOUT", "10"))
         self._start()
 
     def _start(self):
@@ -285,13 +288,22 @@ class Rig:
         if self.killed >= self.config.THREADPOOL_SIZE // 2:
             self.restart()
 
+    def note_no_reply(self):
+        """a call ended by the watchdog: the server worker of that connection may still be waiting; later waits are shorter"""
+        self.timeout = min(self.timeout, float(os.environ.get("C07_TIMEOUT_AFTER", "3")))
+        for p in self.proxies.values():
+            try:
+                p._pyroTimeout = self.timeout
+            except Exception:
+                pass
+
     def proxy(self, ser):
         from Pyro5 import client
         p = self.proxies.get(ser)
         if p is None:
             p = client.Proxy(self.uri)
             p._pyroSerializer = ser
-            p._pyroTimeout = float(os.environ.get("C07_TIMEOUT", "20"))
+            p._pyroTimeout = self.timeout
             self.proxies[ser] = p
         return p
 
